@@ -448,8 +448,23 @@ def _run_main(prog, tier):
                 dropped.append((st_.lineno, U(st_)[:80]))
             else:
                 undecided.append((st_.lineno, U(st_)[:80]))
+    # ... nor written into: apart from the sort (and the resize that adds the column axis) nothing stores into the working copy or
+    # updates it through `out=` - a rounded, winsorised or clipped copy is another sample
+    for st_ in ast.walk(fn):
+        tg_ = st_.targets[0] if isinstance(st_, ast.Assign) and len(st_.targets) == 1 else st_.target if isinstance(st_, ast.AugAssign) else None
+        b_ = tg_
+        while isinstance(b_, ast.Subscript):
+            b_ = b_.value
+        if tg_ is not None and isinstance(b_, ast.Name) and b_.id == sname and (isinstance(tg_, ast.Subscript) or isinstance(st_, ast.AugAssign)):
+            dropped.append((st_.lineno, U(st_)[:80] + "  [values of the working copy overwritten]"))
+        if isinstance(st_, ast.Expr) and isinstance(st_.value, ast.Call):
+            cl_ = st_.value
+            outs_ = [x.id for k_ in cl_.keywords if k_.arg == "out" for x in ast.walk(k_.value) if isinstance(x, ast.Name)]
+            meth_ = cl_.func.attr if isinstance(cl_.func, ast.Attribute) and isinstance(cl_.func.value, ast.Name) and cl_.func.value.id == sname else None
+            if sname in outs_ or meth_ in ("fill", "put", "itemset", "partition") or (meth_ in ("clip", "round") and outs_):
+                dropped.append((st_.lineno, U(st_)[:80] + "  [values of the working copy overwritten]"))
     obs.append(struct_ob("endpoints-are-samples", construct + "[every-draw-kept]", not dropped,
-                         "the working copy must keep every draw of the sample: " + "; ".join(f"line {l}: `{t}` selects rows" for l, t in dropped[:2])
+                         "the working copy must keep every draw of the sample: " + "; ".join(f"line {l}: `{t}`" for l, t in dropped[:2])
                          + " - the interval is then the shortest window of another sample", REL, dropped[0][0] if dropped else fn.lineno, tier="F"))
     deferred_undecided = None
     if undecided and not dropped:
